@@ -1869,8 +1869,9 @@ class QuadraticForm(Functional):
 
         .. math::
             (<x, Ax> + <b, x> + c)^* (x) =
-            <(x - b), A^-1 (x - b)> - c =
-            <x , A^-1 x> - <x, A^-* b> - <x, A^-1 b> + <b, A^-1 b> - c.
+            \frac{1}{4} <(x - b), A^-1 (x - b)> - c =
+            \frac{1}{4} \left(<x , A^-1 x> - <x, A^-* b> - <x, A^-1 b> +
+            <b, A^-1 b>\right) - c.
 
         If the quadratic part of the functional is zero it is instead given
         by a translated indicator function on zero, i.e., if
